@@ -113,6 +113,10 @@ def inject(deck, f):
         c = d['cells'][a - 1]
         if var == 'one_less':
             c['lunivs'] = c['lunivs'][:-1]
+        elif var == 'one_more_repeat':
+            c['array_extra'] = ['r']          # the surplus entry written with the repeat shorthand
+        elif var == 'one_more_nrepeat':
+            c['array_extra'] = ['1r']
         else:
             c['lunivs'] = list(c['lunivs']) + [c['lunivs'][-1]]
     elif cls == 'imp_length':
